@@ -15,8 +15,11 @@
    - the heap array behind container/heap is modelled abstractly as a list; its order
      `Less` (deadline, then larger id first) is total and strict, so the array layout is
      unobservable (probed by the harness);
-   - a node is identified by its id: ids grow strictly (nextID), so `refer[id] == node`
-     of the code is [alive refer n] here;
+   - a node is identified by its id: ids grow strictly (nextID) until the id counter
+     wraps, so `refer[id] == node` of the code is [alive refer n] here (exact as long as
+     no id is handed out again while a cancelled node carrying it is still linked or
+     queued, which needs a wrap of the 63-bit counter; the theorems carry the explicit
+     bound, the id allocation itself is modelled with the wrap);
    - geometry constants come from Generated/Consts.v. *)
 From Coq Require Import ZArith List Bool.
 From FV Require Import Generated.Consts.
@@ -186,15 +189,21 @@ Inductive out :=
 | OProbe (l : list wnode)             (* structure, canonical order *)
 | ONone.
 
-(* nextID(): nextId+1, skipping ids still referred (at most 10^4 attempts) *)
+(* nextID(): nextId+1 — a Go int, which wraps to the negative range after MaxInt64 — then
+   at most 10^4 attempts: a non-positive candidate restarts at 1, a candidate still in the
+   refer map is skipped *)
+Definition wrap64 (z : Z) : Z := if 2 ^ 63 <=? z then z - 2 ^ 64 else z.
+
 Fixpoint next_id_loop (fuel : nat) (newId : Z) (refer : list Z) : Z :=
   match fuel with
   | O => newId
   | S f =>
       let newId := if newId <=? 0 then 1 else newId in
-      if mem newId refer then next_id_loop f (newId + 1) refer else newId
+      if mem newId refer then next_id_loop f (wrap64 (newId + 1)) refer else newId
   end.
-Definition next_id (s : st) : Z := next_id_loop (Z.to_nat 10000) (snext s + 1) (srefer s).
+Definition alloc_id (next : Z) (refer : list Z) : Z :=
+  next_id_loop (Z.to_nat 10000) (wrap64 (next + 1)) refer.
+Definition next_id (s : st) : Z := alloc_id (snext s) (srefer s).
 
 Definition tick_time (s : st) : Z :=
   match score s with CWheel w => wtt w | CHeap _ => sclock s end.
